@@ -23,7 +23,7 @@ CfgOf(r) ==
         beta |-> r.beta, gamma |-> r.gamma, eps |-> r.eps, convex |-> r.convex,
         sym |-> SymmetricW(r.wr, r.w), cfree |-> CentreFree(r.wr, r.w)]
   ELSE [mode |-> "F", prior |-> r.prior, dims |-> r.dims, wr |-> r.wr, hasKappa |-> r.hasKappa, only2D |-> r.only2D, convex |-> r.convex,
-        betaCeil |-> r.betaCeil, wsum |-> r.wsum, kmax2 |-> r.kmax2,
+        betaCeil |-> r.betaCeil, betaSign |-> r.betaSign, route |-> r.route, wsum |-> r.wsum, kmax2 |-> r.kmax2,
         sym |-> (r.w4 = <<>> \/ SymmetricW(r.wr, r.w4)), cfree |-> (r.w4 = <<>> \/ CentreFree(r.wr, r.w4))]
 
 Good(r) == ~Has(r, "bad")
@@ -38,13 +38,17 @@ ConfigOk(r) ==
   /\ Len(r.dims) = 3 /\ \A a \in 1..3 : r.dims[a] >= 1
   /\ Len(r.wr) = 3 /\ \A a \in 1..3 : r.wr[a] >= 0
   /\ IF r.mode = "E"
-     THEN /\ r.prior \in {"quad", "rdp"}
+     THEN /\ r.prior \in {"quad", "rdp", "logcosh"}
           /\ Len(r.w) = WLen(r.wr) /\ \A i \in 1..Len(r.w) : r.w[i] >= 0
-          /\ Len(r.kappa) \in {0, NVox(r.dims)} /\ \A i \in 1..Len(r.kappa) : r.kappa[i] >= 1
-          /\ r.beta >= 1 /\ r.gamma >= 0 /\ r.eps >= 1
+          /\ Len(r.kappa) \in {0, NVox(r.dims)} /\ \A i \in 1..Len(r.kappa) : r.kappa[i] >= 0
+          /\ r.gamma >= 0 /\ r.eps >= 1
      ELSE /\ r.mode = "F" /\ r.prior \in {"quad", "rdp", "logcosh", "pls"}
           /\ ~r.valueErr /\ r.betaCeil >= 1 /\ r.wsum >= 0 /\ r.kmax2 >= 1
           /\ (r.prior = "logcosh" => r.par1000[3] >= 500)     \* domain of PMax
+          /\ r.betaSign \in {-1, 0, 1}
+          \* the neighbourhood in use is the configured one: without user weights the object reports the 3x3x3 stencil,
+          \* or the 1x3x3 stencil if only_2D was requested -- through the constructor, the parser or the member
+          /\ (r.prior # "pls" /\ ~r.userw => r.wr = (IF r.only2D THEN <<0, 1, 1>> ELSE <<1, 1, 1>>))
           /\ Len(r.w4) \in {0, WLen(r.wr)} /\ (r.userw <=> r.w4 # <<>>) /\ \A i \in 1..Len(r.w4) : r.w4[i] >= 0
 
 N == NVox(c.dims)
@@ -57,53 +61,75 @@ SparseIs(nz, S) == /\ { <<nz[k][1], nz[k][2]>> : k \in 1..Len(nz) } = S
 
 RCoef(n, i) == c.beta * n[2] * KK(c, i, n[1])
 RD3(a, b) == Cube(RD(c, a, b))
-RGradAbsK(i) == c.beta * SumS(Nb(c, i), LAMBDA n : n[2] * KK(c, i, n[1]) * Abs(Fix(Psi1N(c, x[i], x[n[1]]), RD(c, x[i], x[n[1]]) * RD(c, x[i], x[n[1]]), KG)))
-RTimesAbsK(v, i) == SumS({ n \in Nb(c, i) : n[1] # i }, LAMBDA n : RCoef(n, i) *
+RGradAbsK(i) == SumS(Nb(c, i), LAMBDA n : Abs(RCoef(n, i)) * Abs(Fix(Psi1N(c, x[i], x[n[1]]), RD(c, x[i], x[n[1]]) * RD(c, x[i], x[n[1]]), KG)))
+RTimesAbsK(v, i) == SumS({ n \in Nb(c, i) : n[1] # i }, LAMBDA n : Abs(RCoef(n, i)) *
                         (Fix(Psi20N(c, x[i], x[n[1]]), RD3(x[i], x[n[1]]), KH) * Abs(v[i]) + Abs(Fix(Psi11N(c, x[i], x[n[1]]), RD3(x[i], x[n[1]]), KH)) * Abs(v[n[1]])))
-RTimesWeight(v, i) == SumS({ n \in Nb(c, i) : n[1] # i }, LAMBDA n : RCoef(n, i) * (Abs(v[i]) + Abs(v[n[1]])))
+RTimesWeight(v, i) == SumS({ n \in Nb(c, i) : n[1] # i }, LAMBDA n : Abs(RCoef(n, i)) * (Abs(v[i]) + Abs(v[n[1]])))
+\* exact instance: equality; otherwise the fixed-point sum s has its exact value between s and s + w (w = weight of the
+\* floor errors, negative for a negative penalisation factor)
+WithinX(ex, o, s, w, a) == IF ex THEN o = s ELSE Within(o, Min2(s, s + w), Max2(s, s + w), Abs(a))
+Scaled(S, k) == { <<e[1], e[2] * 2^k>> : e \in S }
+
+ExplainsQuad(r) ==
+  CASE r.e = "Val" -> ~r.err /\ r.k = 2 /\ r.res = 0 /\ r.m = QValue4(c, x)
+    [] r.e = "Grad" -> ~r.err /\ Len(r.g) = N /\ r.k = 0 /\ r.res = 0 /\ \A i \in 1..N : r.g[i] = QGrad(c, x, i)
+    [] r.e = "HRow" -> ~r.err /\ r.i \in 1..N /\ r.k = 0 /\ r.res = 0 /\ SparseIs(r.nz, QHessRow(c, r.i))
+    [] r.e = "HTimes" -> /\ ~r.err /\ Len(r.out) = N /\ Len(r.v) = N /\ Len(r.o) = N /\ r.k = 0 /\ r.res = 0
+                         /\ \A i \in 1..N : r.out[i] = r.o[i] + QHessTimes(c, r.v, i)
+    [] r.e = "HApprox" -> /\ ~r.err /\ r.k = 0 /\ r.res = 0 /\ Len(r.out) = N
+                          /\ \A i \in 1..N : r.out[i] = r.o[i] + QApproxTimes(c, r.v, i)
+    [] OTHER -> FALSE
+
+\* log-cosh on an image without differences between neighbours: zero value and gradient, the quadratic prior's Hessian
+ExplainsLogcoshFlat(r) ==
+  /\ Flat(c, x)
+  /\ CASE r.e = "Val" -> ~r.err /\ r.res = 0 /\ r.m = 0
+        [] r.e = "Grad" -> ~r.err /\ Len(r.g) = N /\ r.res = 0 /\ \A i \in 1..N : r.g[i] = 0
+        [] r.e = "HRow" -> ~r.err /\ r.i \in 1..N /\ r.k = KH /\ r.res = 0 /\ SparseIs(r.nz, Scaled(QHessRow(c, r.i), KH))
+        [] r.e = "HTimes" -> /\ ~r.err /\ Len(r.out) = N /\ Len(r.v) = N /\ Len(r.o) = N /\ r.k = KH /\ r.res = 0
+                             /\ \A i \in 1..N : r.out[i] = (r.o[i] + QHessTimes(c, r.v, i)) * 2^KH
+        \* LogcoshPrior does not override this call: the base class reports an error
+        [] r.e = "HApprox" -> r.err
+        [] OTHER -> FALSE
+
+ExplainsRdp(r) ==
+  LET ex == RDyadic(c, x) IN
+  /\ (ex => r.e = "HApprox" \/ r.res = 0)
+  /\ CASE r.e = "Val" ->
+             LET s == RValueK(c, x) IN
+             ~r.err /\ r.k = KV + 1 /\ WithinX(ex, r.m, s, SumS(Vox(c.dims), LAMBDA i : WeightSum(c, i)), s)
+        [] r.e = "Grad" ->
+             ~r.err /\ Len(r.g) = N /\ r.k = KG /\ \A i \in 1..N : WithinX(ex, r.g[i], RGradK(c, x, i), WeightSum(c, i), RGradAbsK(i))
+        [] r.e = "HRow" ->
+             LET nbrs == { n \in Nb(c, r.i) : n[1] # r.i /\ RCoef(n, r.i) # 0 }
+                 supp == { n[1] : n \in nbrs } \cup (IF nbrs = {} THEN {} ELSE {r.i}) IN
+             /\ ~r.err /\ r.i \in 1..N /\ r.k = KH
+             /\ { r.nz[k][1] : k \in 1..Len(r.nz) } = supp /\ Len(r.nz) = Cardinality(supp)
+             /\ \A k \in 1..Len(r.nz) :
+                  LET j == r.nz[k][1]  m == r.nz[k][2] IN
+                  IF j = r.i
+                  THEN LET s == RHessDiagK(c, x, r.i) IN WithinX(ex, m, s, WeightSum(c, r.i), s)
+                  ELSE LET n == CHOOSE q \in nbrs : q[1] = j
+                           s == RHessOffK(c, x, r.i, n) IN
+                       WithinX(ex, m, s, RCoef(n, r.i), s)
+        [] r.e = "HTimes" ->
+             /\ ~r.err /\ Len(r.out) = N /\ Len(r.v) = N /\ Len(r.o) = N /\ r.k = KH
+             /\ \A i \in 1..N :
+                  LET s == r.o[i] * 2^KH + RHessTimesK(c, x, r.v, i)
+                      wt == RTimesWeight(r.v, i) IN
+                  IF ex THEN r.out[i] = s ELSE Within(r.out[i], s - wt, s + wt, RTimesAbsK(r.v, i) + Abs(r.o[i]) * 2^KH)
+        \* RelativeDifferencePrior documents this call as not implemented (error)
+        [] r.e = "HApprox" -> r.err
+        [] OTHER -> FALSE
 
 ExplainsE(r) ==
   CASE r.e = "Image" -> Good(r) /\ Len(r.x) = N /\ \A i \in 1..N : r.x[i] >= 0
-    [] r.e = "Val" ->
-         /\ Good(r) /\ ~r.err
-         /\ IF c.prior = "quad"
-            THEN r.k = 2 /\ r.res = 0 /\ r.m = QValue4(c, x)
-            ELSE LET s == RValueK(c, x) IN
-                 r.k = KV + 1 /\ Within(r.m, s, s + SumS(Vox(c.dims), LAMBDA i : WeightSum(c, i)), s)
-    [] r.e = "Grad" ->
-         /\ Good(r) /\ ~r.err /\ Len(r.g) = N
-         /\ IF c.prior = "quad"
-            THEN r.k = 0 /\ r.res = 0 /\ \A i \in 1..N : r.g[i] = QGrad(c, x, i)
-            ELSE r.k = KG /\ \A i \in 1..N : LET s == RGradK(c, x, i) IN Within(r.g[i], s, s + WeightSum(c, i), RGradAbsK(i))
-    [] r.e = "HRow" ->
-         /\ Good(r) /\ ~r.err /\ r.i \in 1..N
-         /\ IF c.prior = "quad"
-            THEN r.k = 0 /\ r.res = 0 /\ SparseIs(r.nz, QHessRow(c, r.i))
-            ELSE LET nbrs == { n \in Nb(c, r.i) : n[1] # r.i }
-                     supp == { n[1] : n \in nbrs } \cup (IF nbrs = {} THEN {} ELSE {r.i}) IN
-                 /\ r.k = KH
-                 /\ { r.nz[k][1] : k \in 1..Len(r.nz) } = supp /\ Len(r.nz) = Cardinality(supp)
-                 /\ \A k \in 1..Len(r.nz) :
-                      LET j == r.nz[k][1]  m == r.nz[k][2] IN
-                      IF j = r.i
-                      THEN LET s == RHessDiagK(c, x, r.i) IN Within(m, s, s + WeightSum(c, r.i), s)
-                      ELSE LET n == CHOOSE q \in nbrs : q[1] = j
-                               s == RHessOffK(c, x, r.i, n) IN
-                           Within(m, s, s + RCoef(n, r.i), Abs(s))
-    [] r.e = "HTimes" ->
-         /\ Good(r) /\ ~r.err /\ Len(r.out) = N /\ Len(r.v) = N /\ Len(r.o) = N
-         /\ IF c.prior = "quad"
-            THEN r.k = 0 /\ r.res = 0 /\ \A i \in 1..N : r.out[i] = r.o[i] + QHessTimes(c, r.v, i)
-            ELSE r.k = KH /\ \A i \in 1..N :
-                   LET s == r.o[i] * 2^KH + RHessTimesK(c, x, r.v, i)
-                       wt == RTimesWeight(r.v, i) IN
-                   Within(r.out[i], s - wt, s + wt, RTimesAbsK(r.v, i) + Abs(r.o[i]) * 2^KH)
-    [] r.e = "HApprox" ->
-         \* RelativeDifferencePrior documents this call as not implemented (error)
-         IF c.prior = "quad"
-         THEN /\ Good(r) /\ ~r.err /\ r.k = 0 /\ r.res = 0 /\ Len(r.out) = N
-              /\ \A i \in 1..N : r.out[i] = r.o[i] + QApproxTimes(c, r.v, i)
-         ELSE r.err
+    [] r.e \in {"Val", "Grad", "HRow", "HTimes", "HApprox"} ->
+         /\ Good(r)
+         /\ CASE c.prior = "quad" -> ExplainsQuad(r)
+              [] c.prior = "rdp" -> ExplainsRdp(r)
+              [] c.prior = "logcosh" -> ExplainsLogcoshFlat(r)
+              [] OTHER -> FALSE
     \* tuples of observations, judged without any formula of the prior:
     \* "the gradient is the derivative of the value" -- exact central difference of a quadratic function
     [] r.e = "FDE" -> Good(r) /\ c.prior = "quad" /\ r.k = 2 /\ r.res = 0 /\ r.vp - r.vm = 8 * r.g
@@ -169,7 +195,10 @@ ExplainsF(r) ==
     \* the gradient at i does not change when a voxel outside its stencil changes
     [] r.e = "Local" -> Good(r) /\ ~Near(c.dims, c.wr, r.i, r.j) /\ r.a = r.b
     \* "positive semi-definite for priors that declare themselves convex"
-    [] r.e = "PSD" -> Good(r) /\ HasHessian /\ Len(r.v) = N /\ Len(r.hv) = N /\ (c.convex => Dot(r.v, r.hv) >= -DotSlack(r.v, r.hv))
+    \* (a negative penalisation factor turns the sign by linearity; is_convex() does not look at it)
+    [] r.e = "PSD" -> /\ Good(r) /\ HasHessian /\ Len(r.v) = N /\ Len(r.hv) = N
+                      /\ (c.convex /\ c.betaSign >= 0 => Dot(r.v, r.hv) >= -DotSlack(r.v, r.hv))
+                      /\ (c.convex /\ c.betaSign <= 0 => Dot(r.v, r.hv) <= DotSlack(r.v, r.hv))
     \* H v = sum_i v_i H e_i (integer v)
     [] r.e = "Lin" ->
          /\ Good(r) /\ HasHessian /\ Len(r.v) = N /\ Len(r.hv) = N /\ Len(r.cols) = N
@@ -178,7 +207,12 @@ ExplainsF(r) ==
                   a == SumS(1..N, LAMBDA i : Abs(r.v[i]) * (Abs(r.cols[i][j]) + 1)) IN
               Abs(r.hv[j] - s) <= 2 + SumS(1..N, LAMBDA i : Abs(r.v[i])) + a \div 32768
     \* "the gradient is the derivative of the value" as far as observations decide it (convex priors)
-    [] r.e = "FDV" -> Good(r) /\ c.convex /\ r.i \in 1..N /\ FDVBracket(c, r)
+    [] r.e = "FDV" -> /\ Good(r) /\ c.convex /\ r.i \in 1..N
+                      /\ (c.betaSign >= 0 => FDVBracket(c, r))
+                      /\ (c.betaSign <= 0 => FDVBracket(c, [r EXCEPT !.g0 = r.g1, !.g1 = r.g0]))     \* concave: the bracket is reversed
+    \* PLS with only_2D: differences along z do not enter; an image that varies along z only has penalty alpha at every
+    \* voxel, the value is beta * alpha * sum(kappa) exactly (beta, alpha in eighths, kappa in quarters)
+    [] r.e = "PLS2D" -> Good(r) /\ c.prior = "pls" /\ c.only2D /\ ~r.err /\ r.k = 8 /\ r.res = 0 /\ r.m = r.b8 * r.a8 * r.ksum4
     \* "the Hessian(-times-vector) is the (directional) derivative of the gradient", unit directions
     [] r.e = "FDG" ->
          /\ Good(r) /\ HasHessian /\ FDGApplicable(r) /\ r.kh = r.kg - r.hk
@@ -204,6 +238,11 @@ PlsInterior(cc, i) ==
 \* (compute_Hessian and accumulate_Hessian_times_input) although value and gradient do not depend on it.
 Classify(r, cc) ==
   IF cc.mode = "F" /\ cc.prior = "pls" /\ r.e = "FDV" /\ Has(r, "i") /\ (cc.hasKappa \/ ~PlsInterior(cc, r.i)) THEN "C09-plsgrad"
+  \* C09-ctor2d: the constructors RelativeDifferencePrior(only_2D, ...), LogcoshPrior(only_2D, ...), PLSPrior(only_2D, ...)
+  \* call set_defaults() after initialising the member, which resets only_2D to false
+  ELSE IF r.e = "Config" /\ cc.mode = "F" /\ cc.route = "ctor" /\ cc.only2D /\ cc.prior \in {"rdp", "logcosh"} /\ cc.wr = <<1, 1, 1>> THEN "C09-ctor2d"
+  \* (PLS does not report its neighbourhood: the z-dependence shows in the value of a z-ramp and in the locality lines)
+  ELSE IF r.e \in {"PLS2D", "Local"} /\ cc.mode = "F" /\ cc.route = "ctor" /\ cc.only2D /\ cc.prior = "pls" THEN "C09-ctor2d"
   ELSE IF cc.mode \in {"E", "F"} /\ ~cc.sym /\ r.e \in {"FDE", "SymE", "H", "FDV", "PSD"} THEN "C09-asymweights"
   ELSE IF cc.mode = "E" /\ ~cc.cfree /\ (r.e \in {"HRow", "HTimes"} \/ (r.e = "JacE" /\ r.i = r.j)) THEN "C09-centreweight"
   ELSE IF cc.mode = "F" /\ ~cc.cfree /\ r.e = "FDG" /\ Has(r, "pass") /\ r.pass >= 1 THEN "C09-centreweight"
